@@ -1,4 +1,5 @@
 import ScVerif.C16.UnknownLemmas
+import ScVerif.C16.WireBounds
 /-!
 `equalUnknown` on RAW bytes: the records are cut by the model of `protowire.ConsumeField`, so that "equal
 raw bytes give equal records" is a fact, not a hypothesis.
@@ -31,28 +32,25 @@ theorem splitRecords_spec : ∀ (fuel : Nat) (b : Bytes) (rs : List (Nat × Byte
     simp only [splitRecords] at h
     split at h
     · cases h
-    · rename_i num n _
+    · rename_i num n hcf
+      have hbound := consumeField_bounds (c :: b) num n hcf
       split at h
       · cases h
-      · rename_i hguard
-        split at h
-        · cases h
-        · rename_i rest hrest
-          simp only [Option.some.injEq] at h
-          subst h
-          obtain ⟨ih1, ih2⟩ := splitRecords_spec fuel _ rest hrest
-          constructor
-          · simp only [unkBytes, List.flatMap_cons, recBytes] at ih1 ⊢
-            rw [ih1]
-            exact List.take_append_drop n (c :: b)
-          · intro r hr
-            simp only [List.mem_cons] at hr
-            rcases hr with rfl | hr
-            · have hn : n ≠ 0 := fun e => hguard (Or.inl e)
-              cases n with
-              | zero => exact absurd rfl hn
-              | succ k => simp
-            · exact ih2 r hr
+      · rename_i rest hrest
+        simp only [Option.some.injEq] at h
+        subst h
+        obtain ⟨ih1, ih2⟩ := splitRecords_spec fuel _ rest hrest
+        constructor
+        · simp only [unkBytes, List.flatMap_cons, recBytes] at ih1 ⊢
+          rw [ih1]
+          exact List.take_append_drop n (c :: b)
+        · intro r hr
+          simp only [List.mem_cons] at hr
+          rcases hr with rfl | hr
+          · cases n with
+            | zero => omega
+            | succ k => simp
+          · exact ih2 r hr
 
 theorem wireRecords_spec (b : Bytes) (rs : Unk) (h : wireRecords b = some rs) :
     unkBytes rs = b ∧ NonemptyRecs rs := splitRecords_spec _ b rs h
@@ -110,5 +108,19 @@ theorem eqUnknownRaw_eq (bx by_ : Bytes) (rx ry : Unk)
       · intro h n hn
         exact ⟨contains_eq_of_group_eq rx ry hnx hny n (h n hn), h n hn⟩
   · simp [hl]
+
+/-- On unknown fields cut from raw bytes `equalUnknown` decides `unkSame`, without further hypotheses. -/
+theorem eqUnknown_iff_wire (x y : Unk) (hx : WireCut x) (hy : WireCut y) :
+    eqUnknown x y = true ↔ unkSame x y := by
+  obtain ⟨bx, hbx⟩ := hx
+  obtain ⟨by_, hby⟩ := hy
+  apply eqUnknown_iff_groups
+  intro h
+  have e : bx = by_ := by
+    rw [← (wireRecords_spec bx x hbx).1, ← (wireRecords_spec by_ y hby).1, h]
+  subst e
+  rw [hbx] at hby
+  cases hby
+  intro n; rfl
 
 end ScVerif.C16
